@@ -14,3 +14,83 @@ func specParsedRangeOK(r storage.ByteRange) bool {
 	}
 	return *r.Start >= 0
 }
+
+// specCovers: the effect each authorization operation name covers, as the storage.Storage method that produces it
+// (from the property statement: a request takes effect only under an operation name that covers that effect).
+func specCovers(op string, method string) bool {
+	switch op {
+	case "ListBuckets":
+		return method == "ListBuckets"
+	case "HeadBucket":
+		return method == "HeadBucket"
+	case "CreateBucket":
+		return method == "CreateBucket"
+	case "DeleteBucket":
+		return method == "DeleteBucket"
+	case "ListObjects":
+		return method == "ListObjects"
+	case "ListObjectVersions":
+		return method == "ListObjectVersions"
+	case "ListMultipartUploads":
+		return method == "ListMultipartUploads"
+	case "ListParts":
+		return method == "ListParts"
+	case "HeadObject", "HeadObjectVersion":
+		return method == "HeadObject"
+	case "GetObject", "GetObjectVersion":
+		return method == "GetObject"
+	case "PutObject":
+		return method == "PutObject"
+	case "AppendObject":
+		return method == "AppendObject"
+	case "CopyObject":
+		return method == "CopyObject"
+	case "UploadPartCopy":
+		return method == "UploadPartCopy"
+	case "CreateMultipartUpload":
+		return method == "CreateMultipartUpload"
+	case "UploadPart":
+		return method == "UploadPart"
+	case "CompleteMultipartUpload":
+		return method == "CompleteMultipartUpload"
+	case "AbortMultipartUpload":
+		return method == "AbortMultipartUpload"
+	case "DeleteObject", "DeleteObjectVersion":
+		return method == "DeleteObject"
+	case "DeleteObjects":
+		return method == "DeleteObjects"
+	case "GetBucketCORS":
+		return method == "GetBucketCORSConfiguration"
+	case "PutBucketCORS":
+		return method == "PutBucketCORSConfiguration"
+	case "DeleteBucketCORS":
+		return method == "DeleteBucketCORSConfiguration"
+	case "GetBucketWebsite":
+		return method == "GetBucketWebsiteConfiguration"
+	case "PutBucketWebsite":
+		return method == "PutBucketWebsiteConfiguration"
+	case "DeleteBucketWebsite":
+		return method == "DeleteBucketWebsiteConfiguration"
+	case "GetBucketVersioning":
+		return method == "GetBucketVersioningConfiguration"
+	case "PutBucketVersioning":
+		return method == "PutBucketVersioningConfiguration"
+	case "GetBucketLifecycle":
+		return method == "GetBucketLifecycleConfiguration"
+	case "PutBucketLifecycle":
+		return method == "PutBucketLifecycleConfiguration"
+	case "DeleteBucketLifecycle":
+		return method == "DeleteBucketLifecycleConfiguration"
+	case "GetBucketNotification":
+		return method == "GetBucketNotificationConfiguration"
+	case "PutBucketNotification":
+		return method == "PutBucketNotificationConfiguration"
+	case "GetObjectTagging", "GetObjectVersionTagging":
+		return method == "GetObjectTagging"
+	case "PutObjectTagging", "PutObjectVersionTagging":
+		return method == "PutObjectTagging"
+	case "DeleteObjectTagging", "DeleteObjectVersionTagging":
+		return method == "DeleteObjectTagging"
+	}
+	return false
+}
